@@ -232,6 +232,8 @@ def perm_part(run):
             if rng.random() < 0.3:
                 x, y, bw, bh, col = gen_box(rng)
                 ops_txt.append('box %s+%sx%sx%s%s' % (x, y, bw, bh, '' if col is None else '#' + col))
+            elif ops_txt and rng.random() < 0.25:
+                ops_txt.append(ops_txt[-1])          # the same transform again (flip twice = identity, rotate twice = half turn)
             else:
                 ops_txt.append(rng.choice(PERMS))
         cfg = Util.normalize_config({'id': 'u', 'xforms': ', '.join(ops_txt)})
@@ -290,6 +292,22 @@ def perm_part(run):
                 ops_lit.append({'flipx': 'XFlipx', 'flipy': 'XFlipy', 'flipboth': 'XFlipboth', 'rotcw': 'XRotcw',
                                 'rotccw': 'XRotccw', 'swaprgb': 'XSwap', 'fmtrgb': 'XRgb', 'fmtbgr': 'XBgr',
                                 'fmtgray': 'XGray'}[act])
+        # the same chain through the filter's own entry point: Util.setup + Util.process on a frame set (two topics carrying the
+        # image) must give, on every topic, what the transforms give when applied one after the other
+        try:
+            u = Util.__new__(Util)
+            u.setup(cfg)
+            res = u.process({'main': Frame(img.copy(), format=fmt), 'other': Frame(img.copy(), format=fmt)})
+            u.executor.shutdown(wait=False)
+            for tpc in ('main', 'other'):
+                g = res[tpc]
+                if (g.format, g.width, g.height) != (cur.format, cur.width, cur.height) or not np.array_equal(g.image, cur.image):
+                    run.violation('process:chain-differs %s' % ', '.join(x.split(' ')[0] for x in ops_txt),
+                                  'Util.process applied to topic %r gives %s %dx%d %r, the transforms one after the other give %s %dx%d %r'
+                                  % (tpc, g.format, g.width, g.height, rows_of(g.image), cur.format, cur.width, cur.height, rows_of(cur.image)), case)
+                    break
+        except Exception as e:     # noqa
+            run.violation('process:raises %s' % type(e).__name__, 'Util.process raised %r' % (e,), case)
         run.seen(('p', w, h, fmt, tuple(ops_txt), img.tobytes()))
         exp = [FMT[cur.format], cur.width, cur.height, rows_of(cur.image)]
         cases.append((pairl(pairl(zl(FMT[fmt]), rows_lit(rows_of(img))), listl(ops_lit)), exp, case))
